@@ -187,21 +187,6 @@ func ruleReleaseIn(c *Check, rule string, w *walkerInfo, fn *ssa.Function, depth
 		return
 	}
 	for _, site := range sites {
-		// the release loop may have been moved into a helper of the completion handler: judge it there
-		if call, ok := site.(*ssa.Call); ok && depth < 2 {
-			if h := call.Call.StaticCallee(); h != nil && h != w.StartNode && len(h.Blocks) > 0 && engine.InPackage(h, "dag") {
-				direct := false
-				for _, f := range c.G.CalleesOf(site) {
-					if f == w.StartNode {
-						direct = true
-					}
-				}
-				if !direct {
-					ruleReleaseIn(c, rule, w, h, depth+1)
-					continue
-				}
-			}
-		}
 		key := "release-forall-deps/" + fname
 		pos := c.P.InstrPos(site)
 		args := site.Common().Args
@@ -230,6 +215,13 @@ func ruleReleaseIn(c *Check, rule string, w *walkerInfo, fn *ssa.Function, depth
 			if why, ok, found := releaseGuardedByHelper(c, fn, site, dependant); found {
 				c.Require(ok, rule, key, "released only when a helper that ranges over all of inEdges[dependant] and returns false on the first missing or unsuccessful dependency returned true", why, pos)
 				continue
+			}
+			// the release loop may have been moved into a helper of the completion handler: judge it there
+			if call, ok := site.(*ssa.Call); ok && depth < 2 {
+				if h := call.Call.StaticCallee(); h != nil && h != w.StartNode && len(h.Blocks) > 0 && engine.InPackage(h, "dag") && len(sitesReaching(c, h, fnSet(w.StartNode))) > 0 && len(engine.LoopsOf(h)) > 0 {
+					ruleReleaseIn(c, rule, w, h, depth+1)
+					continue
+				}
 			}
 			c.Unknown(rule, key, "the release of a dependant is not guarded by a recognised all-dependencies-done test (flag-style ∀ loop or bool helper expected)", pos)
 			continue
@@ -373,7 +365,11 @@ func ruleReleaseIn(c *Check, rule string, w *walkerInfo, fn *ssa.Function, depth
 		}
 		c.OK(rule, key, "released only when a flag that starts true before a full range over inEdges[dependant] and is cleared on every missing or unsuccessful dependency is still true", pos)
 	}
-	// a failed completion never reaches a release
+	// a failed completion never reaches a release (judged in the completion handler itself: a release helper
+	// is one of its sites)
+	if depth > 0 {
+		return
+	}
 	var compParam ssa.Value
 	for _, p := range fn.Params {
 		if engine.TypeKey(p.Type()) == "dag.Completion" {
